@@ -101,7 +101,12 @@ class Gen:
             return self.pick(vs)
         if r < 0.85:
             return str(self.rng.randint(0, 9))
-        return self.pick(["'%s'" % self.pick(V), "'(%s'" % self.pick(V), "f'{%s} %s'" % (self.pick(vs) if vs else "0", self.pick(V))])
+        v1 = self.pick(vs) if vs else "0"
+        v2 = self.pick(vs) if vs else "1"
+        return self.pick(["'%s'" % self.pick(V), "'(%s'" % self.pick(V), "f'{%s} %s'" % (v1, self.pick(V)),
+                          # names in a nested replacement field of a format spec, after a conversion, in a nested f-string
+                          "f'{%s:{%s}} %s'" % (v1, v2, self.pick(V)), "f'{%s!r:>{%s}}'" % (v1, v2),
+                          'f"{f\'{%s}\'} {%s:>{%s}.2f}"' % (v1, v2, v1)])
 
     def expr(self, sc, depth=0, avoid=()):
         r = self.rng.random()
@@ -539,6 +544,16 @@ def gen_project(rng):
         head = ["import lib"]
         used = {"lib"} | bound
         imported = []
+        line1 = None
+        if rng.random() < 0.7:
+            # the first line of lib binds a name - spelled like the module itself or like a variable -: an
+            # ImportedModule's definition location is (module, 1), the same as that name's
+            line1 = rng.choice(["lib", "lib", rng.choice(V), "top"])
+            if line1 in {s_.get_name() for s_ in symtable.symtable(lib, "m", "exec").get_symbols()}:
+                line1 = None
+            else:
+                lib = "%s = %d\n" % (line1, rng.randint(0, 9)) + lib
+                tops[line1] = ("var", None)
         for x in rng.sample(sorted(tops), min(len(tops), rng.randint(1, 3))):
             alias = rng.choice([None, None, "q1", "q2", rng.choice(V)])
             sp = alias or x
@@ -555,8 +570,49 @@ def gen_project(rng):
             else:
                 foot.append("print(%s, lib.%s)" % (sp, x))
             foot.append("def sh_%s(%s):\n    return %s" % (sp, sp, sp))
+        if line1 == "lib":
+            foot.append("def via_from():\n    from lib import lib\n    return lib")
+            foot.append("print(lib.lib, lib)")
+        elif line1 is not None and line1 not in used:
+            foot.append("def via_alias():\n    import lib as %s\n    return %s.%s" % (line1, line1, line1))
+            foot.append("def via_name():\n    from lib import %s\n    return %s" % (line1, line1))
         x = rng.choice(sorted(tops))
         foot.append("print(lib.%s)" % x)
         foot.append("def use_lib(lib):\n    return lib.%s" % x)
         return {"lib.py": lib, "mod_under_test.py": "\n".join(head) + "\n" + body + "\n".join(foot) + "\n"}
+    return None
+
+
+def gen_sequence(rng):
+    """(files of version 1, second version of lib.py): app does `from lib import *` and already uses a name that only the
+    second version of lib defines"""
+    import ast
+    for _ in range(20):
+        lib = gen_module(rng, ())
+        body = gen_module(rng, ())
+        if not lib or not body:
+            continue
+        try:
+            top = {n.name for n in ast.parse(lib).body if isinstance(n, (ast.FunctionDef, ast.ClassDef))}
+        except SyntaxError:
+            continue
+        new = rng.choice(["store", "fresh", rng.choice(V)])
+        import symtable
+        lib_bound = {s.get_name() for s in symtable.symtable(lib, "m", "exec").get_symbols() if s.is_local()}
+        if new in lib_bound:
+            continue
+        if rng.random() < 0.6:
+            add = "def %s(data):\n    return data\n" % new
+            use = "%s(1)" % new
+        else:
+            add = "%s = %d\n" % (new, rng.randint(0, 9))
+            use = new
+        old_names = sorted(n for n in top if not n.startswith("_"))
+        foot = ["def run_new(path):\n    return %s" % use, "print(%s)" % use]
+        if old_names:
+            foot.append("print(%s)" % rng.choice(old_names))
+        app = "from lib import *\n" + body + "\n".join(foot) + "\n"
+        # the new definition last, or first (every other definition then moves down)
+        lib2 = (lib + add) if rng.random() < 0.5 else (add + lib)
+        return {"lib.py": lib, "mod_under_test.py": app}, lib2
     return None
